@@ -115,6 +115,7 @@ type c18in struct {
 	Hard    bool     `json:"hard_error"`
 	Kind    int      `json:"hard_error_kind,omitempty"` // 0 private error value, 1 io.ErrUnexpectedEOF, 2 io.ErrClosedPipe, 3 wrapped io.ErrUnexpectedEOF
 	CbFail  int      `json:"cb_fail"`                   // -1 none
+	CbKind  int      `json:"cb_error_kind,omitempty"`   // 0 private error value, 1 io.EOF, 2 wrapped io.EOF, 3 io.ErrUnexpectedEOF
 	BufSize int      `json:"initial_buf"`
 	Boxes   []c18box `json:"boxes,omitempty"` // when the stream was built from well-formed boxes
 	NoModel bool     `json:"oracle_only,omitempty"` // large stream: judged by the oracle, not evaluated in Coq
@@ -135,6 +136,21 @@ type c18obs struct {
 }
 
 var errCb = errors.New("verif: callback error")
+var errCbWrappedEOF = fmt.Errorf("verif: sink ended: %w", io.EOF)
+
+// cbErr: the error of a failing callback. A callback that forwards or decodes the chunk may well return
+// io.EOF or an error wrapping it (mp4.DecodeFile on a cut chunk does); it is a callback error all the same.
+func cbErr(kind int) error {
+	switch kind {
+	case 1:
+		return io.EOF
+	case 2:
+		return errCbWrappedEOF
+	case 3:
+		return io.ErrUnexpectedEOF
+	}
+	return errCb
+}
 
 func c18run(in c18in) c18obs {
 	done := make(chan c18obs, 1)
@@ -157,7 +173,7 @@ func c18run(in c18in) c18obs {
 			obs.Cbs = append(obs.Cbs, c18cb{cd.Start, cd.IsInitSegment, d})
 			n++
 			if in.CbFail >= 0 && n-1 == in.CbFail {
-				return errCb
+				return cbErr(in.CbKind)
 			}
 			return nil
 		}
@@ -168,7 +184,7 @@ func c18run(in c18in) c18obs {
 			obs.Res = 0
 		case in.Hard && errors.Is(err, hardErr(in.Kind)):
 			obs.Res = 1
-		case errors.Is(err, errCb):
+		case in.CbFail >= 0 && errors.Is(err, cbErr(in.CbKind)):
 			obs.Res = 2
 		default:
 			obs.Res = 3
@@ -381,10 +397,11 @@ func runC18(c *lib.Ctx) error {
 		if len(exp) > 0 && rng.Intn(3) == 0 {
 			gid++
 			k := rng.Intn(len(exp))
-			for j := 0; j < 2; j++ {
-				add(c18in{Stream: s, Sched: randSched(len(s)), EOFData: rng.Intn(2) == 0, CbFail: k,
+			for j := 0; j < 4; j++ {
+				// j: the identity of the callback's error (private value, io.EOF, wrapped io.EOF, io.ErrUnexpectedEOF)
+				add(c18in{Stream: s, Sched: randSched(len(s)), EOFData: rng.Intn(2) == 0, CbFail: k, CbKind: j,
 					BufSize: bufSizes[rng.Intn(len(bufSizes))], Boxes: meta}, gid, exp[:k+1])
-				c.Count("callback-error")
+				c.Count(fmt.Sprintf("callback-error/kind-%d", j))
 			}
 		}
 		// hard read error at the end of a truncated copy
